@@ -28,11 +28,13 @@ def classOf (l : Line) : String :=
   | "handler" =>
     let ent := if str l "entry" == "" then "unrouted" else str l "entry"
     let tok := if has l "tplace" then ":" ++ esc (str l "tplace") ++ ":" ++ esc (lastSeg (str l "tcheck"))
-      else if has l "lplace" then ":" ++ esc (str l "lplace") ++ ":" ++ esc (str l "lcls") else ""
+      else if has l "lplace" then ":" ++ esc (str l "lplace") ++ ":" ++ esc (str l "lcls")
+      else if has l "hplace" then ":" ++ esc (str l "hplace") ++ ":" ++ esc (str l "htype") else ""
     "handler:" ++ str l "router" ++ ":" ++ esc ent ++ ":" ++ esc (((str l "mut").splitOn ":").headD "") ++ tok ++ ":" ++ statusClass (nat l "status")
   | "dec" => "dec:" ++ str l "type" ++ ":" ++ str l "mode" ++ ":" ++ str l "ptype" ++ ":" ++ str l "obs"
   | "claims" => "claims:" ++ esc (str l "type") ++ ":" ++ str l "ptype" ++ ":" ++ str l "obs"
-  | "verify" => "verify:" ++ esc (str l "fn") ++ ":p" ++ toString (nat l "parts") ++ ":" ++ str l "ptype" ++ ":" ++ str l "obs"
+  | "verify" => "verify:" ++ esc (str l "fn") ++ ":p" ++ toString (nat l "parts") ++ ":" ++ str l "ptype" ++
+      (if has l "hname" then ":hdr-" ++ esc (str l "htype") ++ "-" ++ esc (str l "hser") else "") ++ ":" ++ str l "obs"
   | "hint" => "hint:" ++ esc (str l "caller") ++ ":" ++ esc (lastSeg (str l "tcheck")) ++ ":" ++ str l "obs"
   | "bytes" => "bytes:" ++ esc (str l "via") ++ ":" ++ esc (str l "cls") ++ ":" ++ str l "obs"
   | "rph" => "rph:" ++ esc (str l "handler") ++ ":" ++ esc (str l "rp") ++ ":" ++ esc (str l "req") ++ ":" ++ esc (str l "token") ++ ":" ++ esc (str l "userinfo") ++
